@@ -161,7 +161,93 @@ def one_line(arg: Any) -> Optional[str]:
     return None
 
 
+def check_setup_parser(model: Model, report: Report, rule: str) -> None:
+    """Option table of the argument parser and the dispatch in main()."""
+    fn = model.func("cli.setup_parser")
+    main = model.func("cli.main")
+    calls: List[Tuple[str, ast.Call]] = []
+    for n in ast.walk(fn.node):
+        if isinstance(n, ast.Call) and isinstance(n.func, ast.Attribute) and n.func.attr in ("add_argument", "set_defaults", "add_mutually_exclusive_group"):
+            calls.append((n.func.attr, n))
+    opts: Dict[str, ast.Call] = {}
+    for kind, c in calls:
+        if kind == "add_argument":
+            for a in c.args:
+                if isinstance(a, ast.Constant) and isinstance(a.value, str) and a.value.startswith("--"):
+                    opts[a.value] = c
+
+    def kw(c: ast.Call, name: str) -> Optional[str]:
+        for k in c.keywords:
+            if k.arg == name:
+                return ast.unparse(k.value)
+        return None
+
+    def flags(c: ast.Call) -> List[str]:
+        return [a.value for a in c.args if isinstance(a, ast.Constant)]
+
+    want = {
+        "--query": {"flags": ["-q", "--query"], "action": None, "type": None},
+        "--query-file": {"flags": ["-r", "--query-file"], "type_contains": "FileType", "mode": "'r'"},
+        "--file": {"flags": ["-f", "--file"], "type_contains": "FileType", "default": "sys.stdin"},
+        "--output": {"flags": ["-o", "--output"], "type_contains": "FileType", "mode": "'w'", "default": "sys.stdout"},
+        "--pretty": {"flags": ["--pretty"], "action": "'store_true'"},
+        "--debug": {"flags": ["--debug"], "action": "'store_true'"},
+    }
+    for name, w in want.items():
+        c = opts.get(name)
+        key = f"option:{name}"
+        if c is None:
+            report.fail(rule, fn.qualname, key, f"the command line has no {name} option", file=fn.file, line=fn.line)
+            continue
+        prob = None
+        if flags(c) != w["flags"]:
+            prob = f"spellings are {flags(c)}, expected {w['flags']}"
+        if "action" in w and kw(c, "action") != w["action"]:
+            prob = f"action is {kw(c, 'action')}, expected {w['action']}"
+        if "type_contains" in w:
+            t = kw(c, "type") or ""
+            if w["type_contains"] not in t:
+                prob = f"type is {t or None}, expected an argparse.FileType"
+            elif "mode" in w and w["mode"] not in t:
+                prob = f"file mode in {t} is not {w['mode']}"
+            elif name == "--file" and "'w'" in t:
+                prob = f"the document file is opened for writing ({t})"
+        if "type" in w and w["type"] is None and kw(c, "type") is not None:
+            prob = f"type is {kw(c, 'type')}: the query text would be transformed"
+        if "default" in w and kw(c, "default") != w["default"]:
+            prob = f"default is {kw(c, 'default')}, expected {w['default']}"
+        if prob:
+            report.fail(rule, fn.qualname, key, f"option {name}: {prob}", file=fn.file, line=c.lineno)
+        else:
+            report.ok(rule, fn.qualname, key)
+    # -q and -r are alternatives, one required
+    groups = [c for k, c in calls if k == "add_mutually_exclusive_group"]
+    if not groups or kw(groups[0], "required") != "True":
+        report.fail(rule, fn.qualname, "query-source-group", "the query options are not a required mutually exclusive group", file=fn.file, line=fn.line)
+    else:
+        report.ok(rule, fn.qualname, "query-source-group")
+    sd = [c for k, c in calls if k == "set_defaults"]
+    if not sd or kw(sd[0], "func") != "handle_path_command":
+        report.fail(rule, fn.qualname, "dispatch", f"set_defaults(func=...) is {kw(sd[0], 'func') if sd else None}, expected handle_path_command", file=fn.file, line=fn.line)
+    else:
+        report.ok(rule, fn.qualname, "dispatch: func=handle_path_command")
+    # main(): parse_args then args.func(args)
+    src = ast.unparse(main.node)
+    if "parse_args()" in src and "args.func(args)" in src and "setup_parser()" in src:
+        report.ok(rule, main.qualname, "main = setup_parser().parse_args(); args.func(args)")
+    else:
+        report.fail(rule, main.qualname, "main-shape", "main() does not parse the real command line and dispatch to args.func(args)", file=main.file, line=main.line)
+    # the pretty indent is a positive constant
+    cli = model.module("cli")
+    ind = cli.assigns.get("INDENT")
+    if isinstance(ind, ast.Constant) and isinstance(ind.value, int) and ind.value > 0:
+        report.ok(rule, "cli", "INDENT is a positive integer")
+    else:
+        report.fail(rule, "cli", "indent-constant", f"INDENT is {ast.unparse(ind) if ind is not None else None}")
+
+
 def check(model: Model, report: Report) -> None:
+    report.rule("R20.6", "option table: -q/--query (verbatim), -r/--query-file (text file), -f/--file (default stdin, read mode), -o/--output (default stdout, write mode), --pretty/--debug flags; -q and -r are required alternatives; main dispatches to handle_path_command")
     report.rule("R20.1", "every JSONPathError subclass raised at compile time, escaping compile(), is handled: one newline-terminated line on stderr, sys.exit(non-zero), nothing written to the output; re-raised only under --debug")
     report.rule("R20.2", "same for json.load failures (JSONDecodeError, UnicodeDecodeError) and for every JSONPathError subclass raised at evaluation time")
     report.rule("R20.4", "on success the only write to the output sink is json.dump(compile(query).find(json.load(file)).values(), args.output, indent=INDENT if --pretty else None); no exit, nothing on stderr")
@@ -293,6 +379,7 @@ def check(model: Model, report: Report) -> None:
                 report.fail(rule, site, key, f"CLI on {name}: {bad}", file=fn.file, line=fn.line)
             else:
                 report.ok(rule, site, key, detail={"paths": len(runs)})
+    check_setup_parser(model, report, "R20.6")
     report.touched(site)
     report.extra["explanation"] = "C20: handle_path_command interpreted with compile/json.load/find replaced by outcome injectors (every JSONPathError subclass, decode errors, success) x debug x pretty x query source; effects on stderr/exit/output sink compared."
     report.extra["compile_error_classes"] = sorted(comp_classes)
